@@ -781,14 +781,16 @@ func (s *Std) SyncCases() []P2PCase {
 		addM(fmt.Sprintf("clock sweep: honest message at clock slot %d + %dms", n, off), expectOf(currentSlotOnly(c, now, n, off)), n, off, nil, hm)
 	})
 	addM("already seen for (validator, slot, subnet)", ExpIgnore, now, 0, []string{fmt.Sprintf("syncmsg/%d/%d/%d", member, now, 0)}, hm)
-	{
-		var wrong uint64
+	// every validator x every subnet: accepted exactly on the subnets of the validator's seats (a validator can
+	// hold several seats, in one or in several subcommittees)
+	for v := uint64(0); v < uint64(len(pre.Validators)); v++ {
+		seats := subnetsOf(v)
 		for sn := uint64(0); sn < 4; sn++ {
-			if !subnetsOf(member)[sn] {
-				wrong = sn
-				addM("wrong subnet for the validator", ExpNotAccept, now, 0, nil, runMsg(mkMsg(now, headRoot, member, member, refspec.DomainSyncCommittee), wrong))
-				break
+			exp := ExpNotAccept
+			if seats[sn] {
+				exp = ExpAccept
 			}
+			addM(fmt.Sprintf("validator %d (seats in %d subcommittees) on subnet %d", v, len(seats), sn), exp, now, 0, nil, runMsg(mkMsg(now, headRoot, v, v, refspec.DomainSyncCommittee), sn))
 		}
 	}
 	for v := uint64(0); v < uint64(len(pre.Validators)); v++ {
